@@ -79,6 +79,12 @@ def describe_case(case):
         d = {"format": f[0], "model": gen.unhx(f[1]), "formula_file": gen.unhx(f[2]), "print_option": f[3], "context": f[4]}
     elif k == "CONV":
         d = {"network": gen.unhx(f[0])}
+    elif k == "LOADF":
+        d = {"file": gen.unhx(f[0])}
+    elif k == "LABEL":
+        d = {"label": gen.unhx(f[0])}
+    elif k == "CONVM":
+        d = {"network": gen.unhx(f[0])}
     elif k == "EQV":
         d = {"k": f[0], "network": gen.unhx(f[1][2:])[:400], "context": f[2][:300], "formula_pairs": lst(f[3])}
     else:
